@@ -23,6 +23,7 @@ def pair : P (Nat × Nat) := do let a ← nat; let b ← nat; pure (a, b)
 inductive Tok where
   | op (o : Op)
   | boundary
+  | sdb        -- `split_double_boundary_edges_triangles(mesh)`: a block of its own
 
 def op : P Tok := do
   let k ← tok
@@ -37,29 +38,46 @@ def op : P Tok := do
   | "fsp" => do let f ← nat; pure (.op (.faceSplit f))
   | "es" => do let e ← nat; pure (.op (.edgeSplit e))
   | "nb" => pure .boundary
+  | "sdb" => pure .sdb
   | _ => failure
 
+/-- a block: operations inside `with Editor(mesh)`, or one call of `split_double_boundary_edges_triangles` -/
+inductive Blk where
+  | ops (l : List Op)
+  | sdb
+
+def Blk.length : Blk → Nat
+  | .ops l => l.length
+  | .sdb => 1
+
 /-- splits the token list into blocks -/
-def toBlocks : List Tok → List (List Op)
-  | [] => [[]]
-  | .boundary :: r => [] :: toBlocks r
+def toBlocks : List Tok → List Blk
+  | [] => [.ops []]
+  | .boundary :: r => .ops [] :: toBlocks r
+  | .sdb :: r => match toBlocks r with          -- the request writes `sdb` alone between boundaries
+    | .ops [] :: bs => .sdb :: bs
+    | bs => .sdb :: bs
   | .op o :: r => match toBlocks r with
-    | [] => [[o]]
-    | b :: bs => (o :: b) :: bs
+    | .ops b :: bs => .ops (o :: b) :: bs
+    | bs => .ops [o] :: bs
 
 /-- runs the blocks one after the other on the same mesh: after every block the mesh is prepared (the repaired
 `__exit__` makes the caller's object the refined mesh, which the next block edits). `i0` counts operations globally. -/
-def runBlocks (isPoly : Bool) (m : Raw) : List (List Op) → Nat → Raw × Option (Err × Nat)
+def runBlocks (isPoly : Bool) (m : Raw) : List Blk → Nat → Raw × Option (Err × Nat)
   | [], _ => (m, none)
-  | b :: bs, i0 =>
+  | .ops b :: bs, i0 =>
     match runOps m b i0 with
     | (m', some e) => (m', some e)
     | (m', none) => runBlocks isPoly (if isPoly then m' else prepare m') bs (i0 + b.length)
+  | .sdb :: bs, i0 =>
+    match splitDoubleBoundary m with
+    | .error e => (m, some (e, i0))
+    | .ok m' => runBlocks isPoly (prepare m') bs (i0 + 1)
 
 def fmtPt (p : Pt) : String := s!"{fmtRat p.1} {fmtRat p.2.1} {fmtRat p.2.2}"
 
 def fmtErr : Err → String
-  | .index => "err:Index" | .key => "err:Key" | .value => "err:Value"
+  | .index => "err:Index" | .key => "err:Key" | .value => "err:Value" | .other => "err:Other(Exception)"
 
 def fmtMesh (m : Raw) (withCells : Bool) : String :=
   let v := " ".intercalate (s!"V {m.verts.length}" :: m.verts.map fmtPt)
